@@ -87,10 +87,12 @@ def gen_case(seed, i):
         elif kind == "cycle":
             w.add_symlink(lp, "..")
     opts_L = rng.random() < 0.35
+    # with --follow-links an entry can be reached along routes that carry different ignore files; the
+    # reference selects it when SOME route does not ignore it. fclones keeps whichever route came first
+    # (known finding c09-follow-links-route-order), so only a third of the -L worlds get ignore files
+    ign_ok = (not opts_L) or rng.random() < 0.35
     for d in dirs:
-        # with --follow-links no ignore files: which ignore file governs an entry reached through a
-        # link from outside its directory is not documented (and is order dependent in fclones)
-        if rng.random() < 0.15 and not opts_L:
+        if rng.random() < 0.15 and ign_ok:
             rules = rng.sample(["k", "sub/", "*.dat", "**/README", "*.bin", "a/", "m.txt"], rng.randint(1, 3))
             w.add_file(d + "/" + rng.choice([".gitignore", ".fdignore"]), {"hex": ("\n".join(rules) + "\n").encode().hex()})
     opts = {}
@@ -329,7 +331,7 @@ def run_case(case):
                              "detail": "missed %s ; extra %s" % (rel(exp_set - g0)[:8], rel(g0 - exp_set)[:8])})
             for k, gs in enumerate(got_sets[1:]):
                 if gs != g0:
-                    viol.append({"clause": "pool-size-invariant", "detail": "selection differs between main pool sizes: only-in-1 %s, only-in-other %s" % (rel(g0 - gs)[:6], rel(gs - g0)[:6])})
+                    viol.append({"clause": "pool-size-invariant", "missed": rel(g0 - gs), "extra": rel(gs - g0), "detail": "selection differs between main pool sizes: only-in-1 %s, only-in-other %s" % (rel(g0 - gs)[:6], rel(gs - g0)[:6])})
         for v in viol:
             v["detail"] += " | opts=%s roots=%s" % (o, case["roots"])
         verdict = ",".join(sorted({v["clause"] for v in viol}))
@@ -408,4 +410,40 @@ def _nonascii_prefix_pruning(case, violation):
 
 # c09-regex-alternation-anchoring was repaired in /repo (4f9f8e1): its predicate is gone, its witness is a
 # regression case now (replays/regress/)
-KNOWN_PREDICATES = {"c09-nonascii-literal-prefix-pruning": _nonascii_prefix_pruning}
+def _follow_links_ignore_route(case, violation):
+    """-L with ignore files: every differing file is one that SOME ignore rule of the world matches by
+    name (the file itself or one of its ancestor directories), i.e. one whose selection depends on the
+    route by which it was reached."""
+    o = case["opts"]
+    if not o.get("L"):
+        return False
+    diff = list(violation.get("missed", [])) + list(violation.get("extra", []))
+    if not diff:
+        return False
+    # same defect, other route-dependent test: --one-fs compares with the device of the input path the walk
+    # started from; a nested mount that is also given as an input path is skipped (and marked visited) when
+    # reached from the outer input path first
+    if o.get("one_fs") and o.get("mount") and all(x == o["mount"] or x.startswith(o["mount"] + "/") for x in diff) \
+            and any(r == o["mount"] or r.startswith(o["mount"] + "/") for r in case["roots"]):
+        return True
+    if o.get("no_ignore"):
+        return False
+    rules = []
+    for e in case["world"]["entries"]:
+        if e["t"] == "f" and e["p"].rsplit("/", 1)[-1] in (".gitignore", ".fdignore") and "hex" in e.get("c", {}):
+            for line in bytes.fromhex(e["c"]["hex"]).decode("latin-1").split("\n"):
+                line = line.strip()
+                if line and not line.startswith("#"):
+                    rules.append(line.rstrip("/").replace("**/", ""))
+    if not rules:
+        return False
+    import fnmatch
+    for x in diff:
+        comps = x.split("/")
+        if not any(fnmatch.fnmatchcase(c, r) for c in comps for r in rules):
+            return False
+    return True
+
+
+KNOWN_PREDICATES = {"c09-nonascii-literal-prefix-pruning": _nonascii_prefix_pruning,
+                    "c09-follow-links-route-order": _follow_links_ignore_route}
